@@ -13,6 +13,7 @@ import (
 	disputetypes "github.com/tellor-io/layer/x/dispute/types"
 	oraclekeeper "github.com/tellor-io/layer/x/oracle/keeper"
 	oracletypes "github.com/tellor-io/layer/x/oracle/types"
+	reportertypes "github.com/tellor-io/layer/x/reporter/types"
 
 	"cosmossdk.io/collections"
 	"cosmossdk.io/math"
@@ -204,6 +205,20 @@ func (m *C07Monitor) AfterTx(c *Chain, ctx sdk.Context, tx sdk.Tx, ok bool) {
 					params, _ := c.App.OracleKeeper.Params.Get(ctx)
 					if math.NewIntFromUint64(stored.Power).MulRaw(1_000_000).AddRaw(999_999).LT(params.MinStakeAmount) {
 						c.Violate("C07", "c07", "report-accepted-below-minimum-stake", map[string]interface{}{"power": stored.Power, "min": params.MinStakeAmount.String()})
+					}
+					// ... and in loya, not in whole tokens: the bonded stake of the reporter's unlocked selectors, recomputed from
+					// x/staking (upper estimate: shares rounded up, validators jailed earlier in this block still counted)
+					upper := math.ZeroInt()
+					_ = c.App.ReporterKeeper.Selectors.Walk(ctx, nil, func(k []byte, sel reportertypes.Selection) (bool, error) {
+						if string(sel.Reporter) == string(addr.Bytes()) && !sel.LockedUntilTime.After(ctx.BlockTime()) {
+							_, r, _, _ := bondedStake(c, ctx, sdk.AccAddress(k))
+							upper = upper.Add(r)
+						}
+						return false, nil
+					})
+					m.st.Bucket("c07|min-stake|min-is-whole-tokens=%v|stake-below-next-whole-token-above-min=%v", params.MinStakeAmount.ModRaw(1_000_000).IsZero(), upper.LT(params.MinStakeAmount.QuoRaw(1_000_000).AddRaw(1).MulRaw(1_000_000)))
+					if upper.LT(params.MinStakeAmount) {
+						c.Violate("C07", "c07", "report-accepted-with-stake-below-the-minimum", map[string]interface{}{"stake_at_most": upper.String(), "min": params.MinStakeAmount.String(), "reporter": x.Creator})
 					}
 				}
 			}
